@@ -67,17 +67,36 @@ def _prefixes(name: str) -> list[str]:
     return [".".join(parts[:i]) for i in range(1, len(parts))]
 
 
-def _model_import(importer: str, importee: str) -> NativeObj:
-    """A model of the abstract `Import` API (the accessors the graph construction may use)."""
+# filled by import_records(): how to build a real object of a concrete Import class whose accessors follow the idealised model
+# ((class, constructor argument template with "<a>" / "<b>" for importer / importee)), and the evaluator objects behind the records
+_IDEAL_IMPORT: dict[int, tuple] = {}
+_RECORD_OBJS: dict[tuple, object] = {}
+
+
+def _model_import(importer: str, importee: str, cx: "Ctx | None" = None):
+    """An import `importer -> importee` whose parents lists are the prefix chains: an object of a concrete Import class of the analysed
+    code, built in the evaluator (so that every method of the class, old or new, means what its code says), or - when no class can be
+    built that way - a model of the abstract `Import` API (the four accessors)."""
+    ideal = _IDEAL_IMPORT.get(id(cx.repo)) if cx is not None else None
+    if ideal is not None:
+        cls, template = ideal
+        try:
+            o = Evaluator(cx.repo, tolerant=True)._construct(cls, [importer if x == "<a>" else importee if x == "<b>" else x for x in template], {})
+            if isinstance(o, Obj):
+                return o
+        except (Unknown, Raised):
+            pass
     return NativeObj(
         f"<Import {importer} -> {importee}>",
         {"importer": lambda: importer, "importee": lambda: importee, "importer_parent_modules": lambda: _prefixes(importer), "importee_parent_modules": lambda: _prefixes(importee)},
     )
 
 
-def _record_import(rec: tuple) -> NativeObj:
-    """An `Import` as one of the concrete classes of the analysed code produces it (see `import_records`)."""
+def _record_import(rec: tuple):
+    """An `Import` as one of the concrete classes of the analysed code produces it (see `import_records`): the evaluator object itself."""
     importer, importee, ip, ep, label = rec
+    if rec in _RECORD_OBJS:
+        return _RECORD_OBJS[rec]
     return NativeObj(
         f"<{label} {importer} -> {importee}>",
         {"importer": lambda: importer, "importee": lambda: importee, "importer_parent_modules": lambda: list(ip), "importee_parent_modules": lambda: list(ep)},
@@ -116,7 +135,7 @@ def import_records(cx: "Ctx", ev: Evaluator) -> tuple[list[tuple], list[str]]:
         got = 0
         for i in range(0, 8, 2):
             a, b = NAME_POOL[i], NAME_POOL[i + 1]
-            tails = [".".join(b.split(".")[-2:]), b.split(".")[-1]]
+            tails = [".".join(b.split(".")[-3:]), ".".join(b.split(".")[-2:]), b.split(".")[-1]]  # relative names with 2, 1, 0 parents of their own
             choices: list[list] = []
             n_str = 0
             for p in params:
@@ -125,12 +144,12 @@ def import_records(cx: "Ctx", ev: Evaluator) -> tuple[list[tuple], list[str]]:
                     if n_str == 0 and "none" not in ks:
                         choices.append([a])
                     elif "none" in ks:
-                        choices.append([tails[0], tails[1], None])
+                        choices.append([*tails, None])
                     else:
                         choices.append([b, tails[0]])
                     n_str += 1
                 elif "int" in ks:
-                    choices.append([1, 2])
+                    choices.append([1, 2, 4])  # (a relative import climbing 4 levels leaves the importer's second-level package)
                 elif "none" in ks:
                     choices.append([None])
                 elif "bool" in ks:
@@ -143,7 +162,7 @@ def import_records(cx: "Ctx", ev: Evaluator) -> tuple[list[tuple], list[str]]:
                 break
             import itertools
 
-            for combo in itertools.islice(itertools.product(*choices), 40):
+            for combo in itertools.islice(itertools.product(*choices), 120):
                 try:
                     o = ev._construct(c, list(combo), {})
                     fr = Frame(None, c.module, Env({}))
@@ -156,11 +175,15 @@ def import_records(cx: "Ctx", ev: Evaluator) -> tuple[list[tuple], list[str]]:
                     continue
                 got += 1
                 if vals[2] == _prefixes(vals[0]) and vals[3] == _prefixes(vals[1]):
+                    if vals[0] == a and vals[1] == b and list(combo).count(a) == 1 and list(combo).count(b) == 1 and id(repo) not in _IDEAL_IMPORT:
+                        _IDEAL_IMPORT[id(repo)] = (c, ["<a>" if x == a else "<b>" if x == b else x for x in combo])
                     continue
                 key = (vals[0], vals[1], tuple(vals[2]), tuple(vals[3]))
                 if key not in seen:
                     seen.add(key)
-                    recs.append((vals[0], vals[1], tuple(vals[2]), tuple(vals[3]), c.name))
+                    rec = (vals[0], vals[1], tuple(vals[2]), tuple(vals[3]), c.name)
+                    recs.append(rec)
+                    _RECORD_OBJS[rec] = o
         if not got and not any(x.startswith(c.name + ":") for x in failed):
             failed.append(f"{c.name}: no instance could be constructed in the evaluator")
     # a small, varied selection (generation order: the first pool pair first), one record per shape of names / parents lists
@@ -168,7 +191,7 @@ def import_records(cx: "Ctx", ev: Evaluator) -> tuple[list[tuple], list[str]]:
     shapes: set = set()
     for r in recs:
         shape = (r[4], len(r[1].split(".")), len(r[3]), len(r[0].split(".")))
-        if shape not in shapes and len(picked) < 6:
+        if shape not in shapes and len(picked) < 9:
             shapes.add(shape)
             picked.append(r)
     return picked, failed
@@ -567,6 +590,8 @@ class Flattening:
                 if isinstance(n, ast.Call):
                     if isinstance(n.func, ast.Attribute) and self.cx.is_import_value(f, n.func.value):
                         continue
+                    if isinstance(n.func, ast.Attribute) and n.func.attr in MUTATORS and _ledger_of(f, n.func.value) is not None:
+                        continue  # recording something in a container (`self._pending.setdefault(<name>)`): the arguments are judged, not the call
                     try:
                         cs, _ = self.cx.T.callees(f, n, byname_fallback=False)
                     except Exception:  # noqa: BLE001
@@ -667,7 +692,7 @@ class Flattening:
                         continue
                     a, b = NAME_POOL[(i + rnd) % len(NAME_POOL)], NAME_POOL[(i + rnd + 1) % len(NAME_POOL)]
                     i += 2
-                    env[n.id] = _model_import(a, b)
+                    env[n.id] = _model_import(a, b, self.cx)
                     used += [a, b, *_prefixes(a), *_prefixes(b)]
                 elif ("RAW" in tags or "FLAT" in tags) and self._record_fields_read(f, [e, *[d for _, d in aliases]], n.id) is not None:
                     # a record that carries raw names (`request.start`, `request.end`, `request.inherits`): one pool name per name field
@@ -765,7 +790,7 @@ class Flattening:
             probe, _ = self._bind(f, e, flow, None, 0)
         except (Unknown, Raised):
             probe = {}
-        has_imp = any(isinstance(v, NativeObj) for v in probe.values())
+        has_imp = any(isinstance(v, NativeObj) or (isinstance(v, Obj) and any(c.fq in self.cx.import_classes for c in self.cx.repo.mro(v.cls))) for v in probe.values())
         if has_imp:
             # names as the concrete Import classes hand them out (relative imports: the parents list is not the prefix chain of the importee)
             rounds += [len(NAME_POOL) + k for k in range(len(self.records))]
@@ -1715,14 +1740,81 @@ def _related(a: str, b: str) -> bool:
     return a.startswith(b + ".") or b.startswith(a + ".")
 
 
+EXTERNAL_IMPORT = ("proj.a.x", "xml.etree.ElementTree.sub")  # an external importee deeper than every tabulated limit
+
+
+def module_list_extension(cx: Ctx) -> tuple[FuncInfo, list[str]] | None:
+    """What the scanning code lists for an external importee before the graph is built.  The functions between the scan and the constructor
+    that take the imports and the module list and return a module list (today: ImporteeModuleCalculator.calculate_importee_modules, which
+    lists the importee *and all its parents*) are evaluated on one model import of a deep external module.  Returns (function, the names
+    it adds) when the importee is listed without all of its parents - the graph then has to create the truncated ancestor itself - and
+    None when the list is closed under 'parent of', nothing is added, or nothing can be evaluated."""
+    repo, T = cx.repo, cx.T
+    a, b = EXTERNAL_IMPORT
+    base = sorted({a, *_prefixes(a)})
+
+    def synth(f: FuncInfo, p: str):
+        ms = list(members(T.param_type(f, p)))
+        kinds = {m[1] for m in ms if m[0] in ("b", "lib")}
+        for m in ms:
+            if m[0] == "b" and m[1] in ("list", "seq", "iter", "tuple", "set") and m[2]:
+                el = list(members(m[2][0]))
+                if any(x[0] == "cls" and x[1] in cx.import_classes for x in el):
+                    return "imports", [_model_import(a, b, cx)]
+                if any(x == ("b", "str", ()) for x in el) and m[1] != "tuple":
+                    return "modules", list(base)
+        if "pathlib.Path" in kinds:
+            return "other", PurePosixPath("/srv/work/proj")
+        if "str" in kinds:
+            return "other", "proj."
+        if "bool" in kinds:
+            return "other", False
+        if "tuple" in kinds:
+            return "other", ()
+        if kinds == {"none"}:
+            return "other", None
+        return "other", POISON
+
+    seen: set[str] = set()
+    for site, _call in cx.ctor_sites():
+        for f in reachable_funcs(repo, [site], byname=False):
+            if f.fq in seen or f is site or isinstance(f.node, ast.Lambda) or f.is_abstract or not f.module.name.startswith("pytestarch"):
+                continue
+            seen.add(f.fq)
+            if f.cls is not None and any(c == cx.g for c in repo.mro(f.cls)):
+                continue
+            method = f.cls is not None and f.outer is None and not f.is_staticmethod
+            params = f.param_names[1:] if method else f.param_names
+            roles = {p: synth(f, p) for p in params}
+            if sorted(r for r, _ in roles.values() if r != "other") != ["imports", "modules"]:
+                continue
+            ev = Evaluator(repo, tolerant=True)
+            try:
+                recv = None
+                if method:
+                    init = repo.lookup_method(f.cls, "__init__")
+                    kw = {p: synth(init, p)[1] for p in init.param_names[1:]} if init is not None else {}
+                    recv = ev._construct(f.cls, [], kw)
+                out = ev.call_function(f, [], {p: v for p, (_, v) in roles.items()}, recv)
+            except (Unknown, Raised):
+                continue
+            if ev.uncertain_exits or out is POISON or not isinstance(out, (list, set, tuple, frozenset)) or not all(isinstance(x, str) for x in out):
+                continue
+            added = sorted(set(out) - set(base))
+            if b in added and not set(_prefixes(b)) <= set(out):
+                return f, added
+    return None
+
+
 def rule_r6(cx: Ctx, records: list[tuple]) -> bool:
     """The constructor evaluated on model modules / imports and a model of the networkx graph, once without a limit and once per limit:
     nodes, import edges and hierarchy edges of the limited graph are those of the full graph with truncated names (self-edges dropped)."""
     res = cx.res
     key = f"{cx.g.module.relpath}::{cx.g.name}::the limited graph is the quotient of the full graph (model inputs)"
-    imports: list[NativeObj] = [_model_import(a, b) for a, b in R6_PAIRS]
+    imports: list = [_model_import(a, b, cx) for a, b in R6_PAIRS]
     ends: list[tuple[str, str, str]] = [(a, b, "") for a, b in R6_PAIRS]
-    for rec in records[:4]:
+    # relative imports: those with the longest parents list of their own first, and those that leave the importer's package
+    for rec in sorted(records, key=lambda r: (-len(r[3]), r[0].split(".")[:2] == r[1].split(".")[:2]))[:5]:
         imports.append(_record_import(rec))
         ends.append((rec[0], rec[1], f" ({rec[4]}, importee_parent_modules() = {list(rec[3])})"))
     names: set[str] = set(R6_LONE_MODULES)
@@ -1844,6 +1936,39 @@ def rule_r6(cx: Ctx, records: list[tuple]) -> bool:
                 where(cx.init, cx.init.node), kind="decision-table",
             )
             return True
+    # the module list as the scanning code hands it over for an external importee below the limit: when its parents are not listed, the
+    # graph must still contain the truncated ancestor and the import edge to it
+    ext = module_list_extension(cx)
+    if ext is not None:
+        fn, added = ext
+        a, b = EXTERNAL_IMPORT
+        saved_m, saved_i = list(modules), list(imports)
+        modules[:] = sorted(set(modules) | set(added))
+        imports[:] = [*imports, _model_import(a, b, cx)]
+        try:
+            ext_graphs = {}
+            for lim in (None, 1, 2, 3):
+                g_, why = build(Evaluator(cx.repo, tolerant=True, lib_models=models), lim)
+                if g_ is None:
+                    break
+                ext_graphs[lim] = g_
+        finally:
+            modules[:], imports[:] = saved_m, saved_i
+        if len(ext_graphs) == 4:
+            for lim in (1, 2, 3):
+                want = {trunc(n, lim) for n in ext_graphs[None].nodes}
+                missing = sorted(want - set(ext_graphs[lim].nodes))
+                edge = (trunc(a, lim), trunc(b, lim))
+                lost_edge = (a, b) in ext_graphs[None].edges and edge not in ext_graphs[lim].edges
+                if missing or lost_edge:
+                    res.add(
+                        "C09.R6", key, False,
+                        f"{fn.qualname} lists the external importee {b} as {added} (not all of its parent modules); {GRAPH_CLASS} evaluated on that module list: with level_limit={lim} "
+                        + (f"the nodes {missing[:3]} are missing" if missing else f"the import edge {edge[0]} -> {edge[1]} is missing")
+                        + f" although the graph without a limit has {sorted(n for n in ext_graphs[None].nodes if n.startswith(b.split('.')[0]))[:4]} and the edge {a} -> {b}: nobody creates the truncated ancestor of a module that is skipped because it lies below the limit",
+                        where(cx.init, cx.init.node), kind="decision-table",
+                    )
+                    return True
     # graphs built one after the other in one process (module-level and class-level values persist): each is what it is when built first
     shared = Evaluator(cx.repo, tolerant=True, lib_models=models)
     prev = None
